@@ -244,6 +244,64 @@ CLAIMED = {
             "hashable sort (string labels, numpy/jax inputs, select_random are outside); iteration order of python sets is "
             "left unconstrained, so results built from sets are specified up to order.",
             "DESIGN.md 4 C45", "E1"),
+    "C65": ("proof",
+            "sidecar contracts on concurrency/executors/native/{api,multiproc,serial}.py (VCs from the real ASTs, z3): "
+            "PyNativeExec.submit/map/starmap, MPPoolExec.map and StdLibBackend executed for each of the four backends with the "
+            "ExecBackendConfig literals read from the real constructors and the base-class helpers inlined; an UNINTERPRETED user "
+            "function of arity 0-3 (with/without a keyword parameter) is compared elementwise with built-in call / map / "
+            "itertools.starmap; the stdlib pools are replaced by their documented order-preserving contracts (assumed); "
+            "counter-models replayed on the real executors incl. real process pools",
+            "For every backend (Serial, ThreadPool, ProcPool, MPPool), worker count and persist flag, all argument VALUES and "
+            "the enumerated length shapes (empty, single, many, uneven, 1-3 sequences; starmap data of 0-3 tuples): "
+            "submit(fn,*a,**kw) == fn(*a,**kw), map == list(map(partial(fn,**kw), *seqs)), starmap == "
+            "list(itertools.starmap(...)), in input order.",
+            "Size-bounded in arity / length shapes; the scheduling quantifier is discharged by ASSUMING the stdlib contracts "
+            "(Executor.map / Pool.map / starmap / apply return results in input order) - schedules are not explored. F10, F10b, "
+            "F22 fixed in repo; F23 (MPPoolExec.map rejects uneven lengths, documented precondition) open.",
+            "DESIGN.md 4 C65", "E1"),
+    "C73": ("proof",
+            "sidecar contracts on devices/tracker.py, devices/modifiers/simulator_tracking.py (the seven wrapper closures and "
+            "the decorator) and qubit/sampling.get_num_shots_and_executions (VCs from the real ASTs, all paths, z3): history "
+            "lists of SYMBOLIC length, unbounded totals; the post-state must equal the fold of an independently written update "
+            "specification over the updates the property prescribes; the wrapped device method is uninterpreted (exactly one "
+            "call, same arguments, result returned unchanged); inactive tracker => frame; batches of any length by loop "
+            "invariants over prefix spec functions with a shape-forking havoc for dicts that change inside the loop",
+            "Tracker.update/reset/record/__enter__/__exit__: history appended, totals accumulated for Numbers only, latest "
+            "replaced; every tracking wrapper counts one batch per call, one entry per circuit in batch order with "
+            "simulations/executions/shots as computed for that circuit (shots only for shot-based circuits), records results in "
+            "order, calls the wrapped method exactly once and returns its result; no tracker write when inactive - for all "
+            "values and all history / batch lengths on the enumerated dictionary key-sets.",
+            "update keyword sets, float-result batches and the group count of the counting helper are size-bounded; floats as "
+            "reals; the undecorated device method, callbacks and _group_measurements are uninterpreted; devices without the "
+            "decorator and QNode-level batching are outside.",
+            "DESIGN.md 4 C73", "E1"),
+    "C51": ("proof",
+            "contracts on pauli/pauli_arithmetic.py: the module's multiplication / anticommutation / matrix / sparse-data tables "
+            "(read from the real module each run) against independent reference matrices in exact cyclotomic arithmetic "
+            "(complete over 4 letters / 16 pairs); the real bodies of PauliWord._matmul, commutes_with, _commutator and "
+            "PauliSentence.__add__/__iadd__ executed symbolically on finite maps of SYMBOLIC size over an uninterpreted wire "
+            "sort (z3 arrays + axiomatic key sequences, loop invariants) against per-wire table contracts; the remaining "
+            "sentence arithmetic run on generic sentences with free symbolic coefficients and compared as exact polynomial "
+            "matrices with the reference denotation",
+            "Word products (letters and phase, both iteration orientations), commutation parity and sentence addition for words "
+            "/ sentences on ANY number of wires; all 16+16 table entries and the sparse letter data; sentence products, "
+            "commutators, scalar operations, trace, copy and dense matrices for all words on <= 3 wires with arbitrary "
+            "coefficients (size-bounded); qp.matrix(w1@w2) == qp.matrix(w1)@qp.matrix(w2) for all words on <= 2 wires.",
+            "Kronecker mixed-product property and the even-anticommutation lemma are stated, not machine-checked; buffered "
+            "sparse matrix builders only sampled (bounded); pauli_decompose / pauli_sentence / dot / simplify not covered.",
+            "DESIGN.md 4 C51", "E1+E2"),
+    "C74": ("proof",
+            "contracts on ftqc/pauli_tracker.py: conjugation tables of H, S and CNOT on Pauli frames are DERIVED in exact "
+            "arithmetic from independent reference matrices with P(x,z) := X^x Z^z; the real pauli_to_xz / xz_to_pauli / "
+            "pauli_prod / _commute_h / _commute_s / _commute_cnot / commute_clifford_op are executed symbolically (z3; all "
+            "integer inputs; lists of symbolic length for pauli_prod with a XOR-fold invariant) against those tables; every "
+            "frame of the finite frame domain is also run natively through the real code with exact matrix confirmation",
+            "Tracking half: for every Pauli frame C P(x,z) C^dagger is proportional to P(commute_*(x,z)) for C in {H, S, CNOT}; "
+            "encoding round-trips; pauli_prod == XOR-fold == matrix product up to phase for every list length; the dispatcher "
+            "uses the right table with control first and raises exactly as documented.",
+            "The MBQC conversion half (convert_to_mbqc_*, byproduct bookkeeping over a tape, measurement branches) is not "
+            "covered; operators abstracted to their class; commute_clifford_op size-bounded in xz length (0..3).",
+            "DESIGN.md 4 C74", "E1+E2"),
     "C61": ("proof",
             "contract on step/step_and_cost/apply_grad/compute_grad of the six gradient optimizers: outputs == documented "
             "update rule; real methods executed on sympy-backed symbolic scalars from an arbitrary accumulator state with an "
